@@ -39,7 +39,9 @@ def dispatch (cmd : String) (args impl : List String) : Option (String × String
   | "c10" => DrvC10.handle cmd args impl
   | "c11" => DrvC11.handle cmd args impl
   | "c12" => DrvC12.handle cmd args impl
-  | "c13" => DrvC13.handle cmd args impl
+  -- c13.chain: whole-pipeline chains of the real join and split plugins (harness c99_compose.go); the oracle is
+  -- "the run goes idle, nothing is lost, nothing crashes" = the c04.run oracle of the C01 driver
+  | "c13" => if cmd = "c13.chain" then DrvC01.handle "c04.run" args impl else DrvC13.handle cmd args impl
   | "c14" => DrvC14.handle cmd args impl
   | "c15" => DrvC15.handle cmd args impl
   | "c16" => DrvC16.handle cmd args impl
